@@ -97,8 +97,23 @@ def run(ctx: common.Ctx):
   lines, checks = [], []   # checks: (op, inp, impl, kind)
 
   def add(line, op, inp, impl, kind):
+    if impl is None:      # the real code raised something unexpected (already reported by `guarded`)
+      return
     lines.append(line)
     checks.append((op, inp, impl, kind))
+
+  def guarded(fn, key, inp):
+    """value of fn(), 'value-error' for the documented ValueError, None (and a reported failure of the
+    property) for any other exception."""
+    try:
+      return fn()
+    except ValueError:
+      return 'value-error'
+    except common.Infra:
+      raise
+    except Exception as e:  # pylint: disable=broad-except
+      ctx.fail(key, f'implementation raised {type(e).__name__}: {str(e)[:200]}', inp)
+      return None
 
   # ------------------------------------------------------------------ pint's table
   table = {}
@@ -137,18 +152,39 @@ def run(ctx: common.Ctx):
     order = rng.permutation(len(qs))
     return scales.Scale(*[qs[i] for i in order]), kind
 
+  def budget(parts, sv):
+    """decimal orders of magnitude the conversion may span (keeps every case far from overflow/underflow,
+    which is outside the domain of the property)"""
+    d = [0] * len(DIMS)
+    b = 0.0
+    for n, e in parts:
+      b += abs(e) * abs(np.log10(table[n][0]))
+      for i, x in enumerate(table[n][1]):
+        d[i] += e * x
+    # bound by the sum of the absolute contributions (intermediate products in pint are partial products)
+    for n, e in parts:
+      for i, x in enumerate(table[n][1]):
+        if sv[i] is not None:
+          b += abs(e * x) * abs(np.log10(sv[i]))
+    return b
+
   def random_parts(scale, covered=True, natoms=None):
-    """compound unit; atoms restricted to dimensions the scale covers when `covered`."""
+    """compound unit; atoms restricted to dimensions the scale covers when `covered`, and at least one atom
+    with an uncovered dimension otherwise."""
+    sv = scale_vals(scale)
     cov = {d for d in DIMS if d in scale}
-    names = [n for n in ATOMS if (not covered) or all(DIMS[i] in cov for i, e in enumerate(table[n][1]) if e)]
-    k = int(rng.integers(0, 5)) if natoms is None else natoms
-    k = min(k, len(names))
-    chosen = list(rng.choice(names, size=k, replace=False)) if k else []
-    parts = []
-    for n in chosen:
-      e = int(rng.choice([1, 1, 1, -1, -1, 2, -2, 3, -3]))
-      parts.append((str(n), e))
-    return parts
+    ok_names = [n for n in ATOMS if all(DIMS[i] in cov for i, e in enumerate(table[n][1]) if e)]
+    bad_names = [n for n in ATOMS if n not in ok_names]
+    for _ in range(100):
+      k = int(rng.choice([0, 1, 1, 2, 2, 3, 3, 4])) if natoms is None else natoms
+      k = min(k, len(ok_names))
+      chosen = list(rng.choice(ok_names, size=k, replace=False)) if k else []
+      if not covered and bad_names:
+        chosen.insert(int(rng.integers(0, len(chosen) + 1)), rng.choice(bad_names))
+      parts = [(str(n), int(rng.choice([1, 1, 1, -1, -1, 2, -2, 3, -3]))) for n in chosen]
+      if budget(parts, sv) < 80:
+        return parts
+    return []
 
   def random_mag():
     kind = rng.choice(['float', 'float', 'int', 'np1', 'np2', 'jnp', 'zero'])
@@ -188,13 +224,12 @@ def run(ctx: common.Ctx):
     d_unit = dimvec(unit.dimensionality)
     add(f'units F compound {ut}', 'pint-table', inp0, (float(qb.m), d_unit), 'compound')
     # factor
-    try:
+    def _factor():
       f = scale._scaling_factor(unit.dimensionality)
-      f_impl = float(f.m)
       ctx.expect(dimvec(f.dimensionality) == d_unit, 'factor-dimension',
                  'scaling factor does not have the dimensionality asked for', inp0)
-    except ValueError:
-      f_impl = 'value-error'
+      return float(f.m)
+    f_impl = guarded(_factor, 'scale-exception', inp0)
     ctx.dist[f'factor={"error" if f_impl == "value-error" else "ok"}'] += 1
     add(f'units F factor {st} {ivec(d_unit)}', 'Scale._scaling_factor', inp0, f_impl, 'scalar')
     mag, mkind = random_mag()
@@ -203,22 +238,22 @@ def run(ctx: common.Ctx):
     inp = dict(inp0, magnitude=flat.tolist(), magkind=str(mkind))
     ctx.case(('scale', tuple(x if x is not None else -1 for x in sv), tuple(parts), flat.tobytes()),
              nontrivial=nontriv, sample=inp if ci % 15 == 0 else None)
-    try:
-      nd = scale.nondimensionalize(mag * unit)
-      nd_impl = np.asarray(nd, dtype=float).ravel()
-    except ValueError:
-      nd_impl = 'value-error'
+    nd = guarded(lambda: scale.nondimensionalize(mag * unit), 'scale-exception', inp)
+    nd_impl = nd if nd is None or isinstance(nd, str) else np.asarray(nd, dtype=float).ravel()
     add(f'units F nondim {st} {ut} {fvec(flat)}', 'Scale.nondimensionalize', inp, nd_impl, 'vec')
-    try:
-      dm = scale.dimensionalize(mag, unit)
+    dm = guarded(lambda: scale.dimensionalize(mag, unit), 'scale-exception', inp)
+    if dm is None or isinstance(dm, str):
+      dm_impl = dm
+    else:
       dm_impl = np.asarray(dm.m, dtype=float).ravel()
       ctx.expect(dm.units == unit, 'dimensionalize-unit', 'dimensionalize returned another unit', inp)
-    except ValueError:
-      dm_impl = 'value-error'
     add(f'units F dim {st} {ut} {fvec(flat)}', 'Scale.dimensionalize', inp, dm_impl, 'vec')
+    ctx.expect((f_impl == 'value-error') == (nd_impl == 'value-error' if isinstance(nd_impl, str) else False)
+               or f_impl is None or nd_impl is None, 'scale-error-consistency',
+               'factor and nondimensionalize disagree on whether the scale covers the unit', inp)
 
     # ---------------- probes of the property on the real code (T18.1 / T18.2)
-    if isinstance(nd_impl, str):
+    if nd_impl is None or dm_impl is None or isinstance(nd_impl, str) or isinstance(dm_impl, str):
       continue
     with ctx.impl('scale-probe-exception', inp):
       back = scale.dimensionalize(nd, unit)
@@ -250,7 +285,7 @@ def run(ctx: common.Ctx):
       ctx.expect(close(scale.nondimensionalize(q / qb_), np.asarray(nd_impl.reshape(np.shape(nd))) / ndb, 1e-11),
                  'scale-quotient', 'nondim(q1/q2) != nondim(q1)/nondim(q2)', i3)
       n_pow = int(rng.choice([2, 3, -1, -2]))
-      if (flat != 0).all() and np.abs(np.log10(np.abs(flat))).max() * abs(n_pow) < 100:
+      if (flat != 0).all() and (np.abs(np.log10(np.abs(flat))).max() + budget(parts, sv)) * abs(n_pow) < 280:
         ctx.expect(close(scale.nondimensionalize(q ** n_pow), np.asarray(nd_impl.reshape(np.shape(nd))) ** n_pow, 1e-11),
                    'scale-power', f'nondim(q**{n_pow}) != nondim(q)**{n_pow}', inp)
       # homomorphism of the factor itself
@@ -281,11 +316,10 @@ def run(ctx: common.Ctx):
       qs.append(5.0 * units.Unit(str(rng.choice(SINGLE[d0]))))
     elif mode == 'inverse':
       qs.insert(0, 2.0 / units.second)
-    try:
-      sc = scales.Scale(*qs)
-      impl = scale_token(scale_vals(sc))
-    except ValueError:
-      impl = 'value-error'
+    vinp = dict(scales=[str(q) for q in qs])
+    impl = guarded(lambda: scale_token(scale_vals(scales.Scale(*qs))), 'scale-validation', vinp)
+    if impl is None:
+      continue
     ctx.dist[f'validation:{mode}:{"reject" if impl == "value-error" else "accept"}'] += 1
     ctx.case(('val', vi, mode), nontrivial=True)
     ctx.expect((impl == 'value-error') == (mode != 'ok'), 'scale-validation',
@@ -295,6 +329,15 @@ def run(ctx: common.Ctx):
       b = q.to_base_units()
       toks.append(f'{fbits(b.m)}:{ivec(dimvec(q.dimensionality))}')
     add(f'units F mkscale {len(DIMS)} {";".join(toks)}', 'Scale.__init__', dict(scales=[str(q) for q in qs]), impl, 'str')
+
+  # the excluded point of T18.1/T18.2 (`ScaleOK`: scales are non-zero) on the real code: not validated there
+  try:
+    z = scales.Scale(0.0 * units.meter)
+    with np.errstate(all='ignore'):
+      r = z.nondimensionalize(1.0 * units.meter)
+    ctx.notes.append(f'excluded point: Scale(0 m) is accepted by the code; nondimensionalize(1 m) = {r!r}')
+  except Exception as e:  # pylint: disable=broad-except
+    ctx.notes.append(f'excluded point: Scale(0 m).nondimensionalize(1 m) raises {type(e).__name__}: {e}')
 
   # ------------------------------------------------------------------ timedelta64
   specs0 = pe.PrimitiveEquationsSpecs.from_si()
@@ -433,7 +476,7 @@ def run(ctx: common.Ctx):
     if di == 0:
       ref_min = int((np.datetime64('1979-01-01T00:00') - np.datetime64('1970-01-01T00:00')) / np.timedelta64(1, 'm'))
     ref = (np.datetime64('1970-01-01T00:00', 'm') + np.timedelta64(ref_min, 'm'))
-    years = ctx.n(3, 45) if di == 0 else ctx.n(1, 10)
+    years = ctx.n(3, 20) if di == 0 else ctx.n(1, 5)
     start = int(rng.integers(-60 * 525960, 60 * 525960 - years * 525960)) if di else 0
     mins = np.concatenate([np.arange(start, start + years * 525960, dtype=np.int64),
                            rng.integers(-60 * 525960, 60 * 525960, ctx.n(100000, 1000000))])
@@ -539,9 +582,11 @@ def run(ctx: common.Ctx):
       ctx.expect(close(rate_o * year_nd, TWO_PI, 1e-13) and close(rate_s * day_nd, TWO_PI, 1e-13), 'orbital-rate',
                  'orbital rates are not 2pi per year / per day', inp)
       n = ctx.n(4000, 40000)
+      # model times corresponding to physical times within +-3000 years (the unreduced synodic phase stays
+      # below 1e7, so that a phase in double precision is meaningful to ~1e-9)
+      phys = rng.uniform(-1.0, 1.0, n) * 10.0 ** rng.uniform(0, 11, n)
       ts = np.concatenate([[0.0, -1e-20, 1e-20, -1e-300, day_nd, -day_nd, year_nd, -year_nd, 40 * year_nd],
-                           rng.uniform(-1e6, 1e6, n) * rng.choice([1e-3, 1.0, 1.0, 100.0], n),
-                           rng.integers(-20000, 20000, n // 4) * day_nd])
+                           phys / T, rng.integers(-20000, 20000, n // 4) * day_nd])
       ot = jax.vmap(sr.time_to_orbital_time)(jnp.asarray(ts))
       ph_o, ph_s = np.asarray(ot.orbital_phase), np.asarray(ot.synodic_phase)
       ctx.evaluations += len(ts)
@@ -569,7 +614,7 @@ def run(ctx: common.Ctx):
         ctx.expect((cd <= tol).all(), 'orbital-congruence',
                    f'{nm} phase is not congruent to ref + rate*t (first: t={ts[cd > tol][0] if (cd > tol).any() else None})', i_)
         add(f'units F orb {fbits(TWO_PI)} {fbits(r0)} {fbits(rate)} {fvec(ts[:600])}',
-            'SolarRadiation.time_to_orbital_time', dict(i_, times=ts[:12].tolist()), ph[:600], 'phase')
+            'SolarRadiation.time_to_orbital_time', dict(i_, times=ts[:12].tolist()), (ph[:600], tolr[:600] + 1e-12), 'phase')
       # elapsed time: one year later the orbital phase is back, one day later the synodic phase is back
       ot_y = jax.vmap(sr.time_to_orbital_time)(jnp.asarray(ts + year_nd))
       ot_d = jax.vmap(sr.time_to_orbital_time)(jnp.asarray(ts + day_nd))
@@ -653,11 +698,15 @@ def run(ctx: common.Ctx):
       ctx.corr_exact(op, inp, list(impl), univec(o))
     elif kind == 'phase':
       m = np.asarray(unfvec(o))
-      a = np.asarray(impl, dtype=float)
-      # compare on the circle as well: a phase next to the cut may legitimately land on either side
-      ok = (np.abs(a - m) <= 1e-9) | (circ_dist(a, m) <= 1e-9)
+      a = np.asarray(impl[0], dtype=float)
+      tl = np.asarray(impl[1])
+      # same operations in the same order; XLA may contract ref + rate*t into one fused operation, so allow
+      # one rounding error of the unreduced phase; compare on the circle as well (a phase next to the cut may
+      # land on either side)
+      ok = (np.abs(a - m) <= tl) | (circ_dist(a, m) <= tl)
       ctx.traces += 1
-      ctx.dist['orbital:model-on-other-side-of-cut'] += int((np.abs(a - m) > 1e-9).sum())
+      ctx.dist['orbital:model-on-other-side-of-cut'] += int((np.abs(a - m) > tl).sum())
+      ctx.dist['orbital:model-bit-identical'] += int((a == m).sum())
       if not ok.all():
         ctx.corr_mismatch(op, inp, a[~ok][:3].tolist(), m[~ok][:3].tolist(), 'phase')
     elif kind == 'td':
